@@ -480,9 +480,36 @@ func orchestrate(id, tier string) int {
 				// For the totality property a dead worker is itself the refuting event.
 				cs := json.RawMessage(strings.TrimSpace(string(j)))
 				if json.Valid(cs) {
-					viols = append(viols, core.Violation{Key: fmt.Sprintf("death%d", i), Msg: "worker process died while running this case: " + firstLine(string(lg)), Case: cs})
-					nviol++
-					inconcl = inconcl[:len(inconcl)-1]
+					// ... if it is reproduced: the case is run again, alone, in a fresh process. The
+					// in-process watchdog measures wall time, which a loaded machine stretches; a
+					// case that completes when run alone is recorded as inconclusive.
+					tmp := filepath.Join(dir, fmt.Sprintf("death%d.json", i))
+					os.WriteFile(tmp, []byte(`{"property":"C08","case":`+string(cs)+`}`), 0o644)
+					self, _ := os.Executable()
+					cmd := exec.Command(self, "replay", m.ID, tmp)
+					cmd.Env = append(os.Environ(), "VCHECK_QUIET=1")
+					var confirmed bool
+					if err := cmd.Start(); err != nil {
+						confirmed = true
+					} else {
+						cdone := make(chan error, 1)
+						go func() { cdone <- cmd.Wait() }()
+						select {
+						case err := <-cdone:
+							confirmed = err != nil
+						case <-time.After(4 * time.Minute):
+							cmd.Process.Kill()
+							<-cdone
+							confirmed = true
+						}
+					}
+					if confirmed {
+						viols = append(viols, core.Violation{Key: fmt.Sprintf("death%d", i), Msg: "worker process died while running this case, and the case alone in a fresh process fails or does not finish either: " + firstLine(string(lg)), Case: cs})
+						nviol++
+						inconcl = inconcl[:len(inconcl)-1]
+					} else {
+						inconcl[len(inconcl)-1] += " [the case completes without violation when run alone in a fresh process: not counted as a violation]"
+					}
 				}
 			}
 			continue
